@@ -557,6 +557,8 @@ fn dest_tables(m: &Model, ctx: &mut Ctx) {
             // a single write() may deliver only part of the text: not a delivery of the whole text
             (".write", _) if matches!(a.first(), Some(Val::Ctor(n, _, _)) if n == "File" || n == "Stdout") => Some(Ok(ok(named("PartialWrite", &[("note", Val::Str("write() returns after any number of bytes; the count is not checked".into()))])))),
             (".flush", _) => Some(Ok(ok(Val::Unit))),
+            // print! / println! write to stdout and *panic* when the write fails ("failed printing to stdout")
+            ("print!", _) | ("println!", _) => Some(Err("$panic:print!".into())),
             (n, "stdout") if n.ends_with("io::stdout") => Some(Ok(Val::Ctor("Stdout".into(), vec![], BTreeMap::new()))),
             (".lock", _) if matches!(a.first(), Some(Val::Ctor(n, _, _)) if n == "Stdout") => Some(Ok(a[0].clone())),
             _ => None,
@@ -598,6 +600,8 @@ fn dest_tables(m: &Model, ctx: &mut Ctx) {
                         (_, Ok(o)) => ctx.violate("C20.dest", &key, &f.file, line, &format!("output mode {}: the arm does not evaluate to one delivery of the compiled text (got {}); recognised primitives: fs::write, File::create / OpenOptions(..truncate(true)).open + write_all, io::stdout().write_all", key, o.show().chars().take(160).collect::<String>())),
                         (_, Err(e)) if e.contains("$shape:") => ctx.violate("C20.dest", &format!("{}:kind-from-spelling", key), &f.file, line,
                             &format!("output mode {}: what is done with the destination depends on `path.{}()` — on how the path is spelt. Whether it is a directory (generated<ext> goes inside) or a file is a fact about the file system (`is_dir()`): a directory named `out.v1` and a file named `bindings` exist", key, e.split("$shape:").nth(1).unwrap_or("?").split(|c: char| !c.is_alphanumeric() && c != '_').next().unwrap_or("?"))),
+                        (_, Err(e)) if e.contains("$panic:") => ctx.violate("C20.dest", &format!("{}:panics-on-write-failure", key), &f.file, line,
+                            &format!("output mode {} delivers the text with `print!`, which panics when standard output cannot be written (a closed pipe, /dev/full): an unwritable destination must be reported as Err — the CLI then exits with a panic (status 101) instead of the error", key)),
                         (_, Err(e)) => ctx.fail_closed("C20.dest", &format!("{}: {}", key, e)),
                     }
                     if v != "NoOutput" && !body.contains(".map_err(") && !body.contains("?") {
